@@ -530,3 +530,30 @@ def c15(tier, seed):
                                   "--decoders", "pk,proof"],
                    3 if thorough else 1, "loader call log")
     return out
+
+
+@check("C18")
+def c18(tier, seed):
+    out = Outcome("C18", tier, seed, "model_checking")
+    thorough = tier == "thorough"
+    out.rule = ("Aggregator.tla (collect in any arrival order -> filter -> worker pool taking any pending bucket at any time -> "
+                "join) is model-checked for every interleaving of 2-3 workers over 3-4 buckets with sizes around the threshold: "
+                "OutputCorrect, NeverTooMuch, NoLostBucket and termination under weak fairness; each model configuration is "
+                "scaled (x3 quick, x75 thorough = up to 300 groups) and executed on the real AggregationServer under rayon "
+                "pools of 1,2,3,4,8,16 threads x 3 input permutations; outputs compared as a map measurement -> multiset of "
+                "associated data (absent == empty); distinct = (configuration, pool size, permutation)")
+    out.assumptions = ["real rayon schedules are sampled (pool sizes x repetitions), not enumerated; the schedule quantifier is "
+                       "exhaustive only in the model", "the reference server reports an empty associated datum as absent"]
+    lines = []
+    for c in (["Agg_1.cfg", "Agg_2.cfg", "Agg_3.cfg", "Agg_5.cfg"] + (["Agg_4.cfg", "Agg_6.cfg"] if thorough else [])):
+        r = run_tlc("MC_Aggregator", c, workers=6, timeout=900, tags=("AGG",), tag="C18-" + c[:-4])
+        out.add_tlc(r, "MC_Aggregator/" + c)
+        lines += r.lines.get("AGG", [])[:1]
+    if not lines:
+        raise ToolError("no aggregator configurations emitted")
+    wd = workdir("C18-lines")
+    lp = os.path.join(wd, "agg.ndjson")
+    write_ndjson(lp, lines)
+    out.add_vh(run_vh(["agg-replay", "--lines", lp, "--seed", seed, "--scale", 75 if thorough else 3,
+                       "--perms", 3], timeout=3000), only={"C18"})
+    return out
